@@ -155,14 +155,16 @@ Proof.
     rewrite bytes_eqb_refl in E. discriminate.
 Qed.
 
-(* the three steps of add_header as one map, characterised pointwise *)
+(* the steps of add_header as one map, characterised pointwise.  Since fix ed827503 (F-C04e) the
+   details header holds the status's own details or, without details, nothing at all - whatever
+   the custom metadata holds under that name *)
 Definition written (st : status) (cv : list N) (k : hname) : list hvalue :=
   if bytes_eqb k hdr_grpc_status then [cv]
   else if bytes_eqb k hdr_grpc_message then
          match st_msg st with [] => [] | _ => [pct_encode in_encoding_set (st_msg st)] end
   else if bytes_eqb k hdr_grpc_status_details then
          match st_details st with
-         | [] => hm_get_all (st_md st) k
+         | [] => []
          | _ => [enc false (st_details st)]
          end
   else hm_get_all (sanitize (st_md st)) k.
@@ -178,49 +180,41 @@ Proof.
   assert (E1 : forall k, hm_get_all m1 k = hm_get_all (sanitize (st_md st)) k).
   { intros k. unfold m1. rewrite get_all_extend. destruct (hm_contains _ k) eqn:E; [reflexivity|].
     rewrite (contains_get_all _ _ E). reflexivity. }
-  assert (San : forall k, bytes_eqb k hdr_grpc_status = false -> bytes_eqb k hdr_grpc_message = false ->
-             bytes_eqb k hdr_grpc_status_details = true ->
-             hm_get_all (sanitize (st_md st)) k = hm_get_all (st_md st) k).
-  { intros k _ _ E. apply bytes_eqb_eq in E. subst k. rewrite get_all_sanitize, reserved_details. reflexivity. }
   assert (SanM : hm_get_all (sanitize (st_md st)) hdr_grpc_message = []).
   { now rewrite get_all_sanitize, reserved_message. }
   destruct (st_msg st) as [|m0 ms] eqn:Emsg; destruct (st_details st) as [|d0 ds] eqn:Edet;
     eexists; (split; [reflexivity|]); intros k; unfold written; rewrite ?Emsg, ?Edet;
-    destruct (bytes_eqb k hdr_grpc_status) eqn:K1;
-    try (apply bytes_eqb_eq in K1; subst k);
-    rewrite ?get_all_insert_same;
-    try reflexivity.
+    (destruct (bytes_eqb k hdr_grpc_status) eqn:K1;
+     [apply bytes_eqb_eq in K1; subst k|
+      destruct (bytes_eqb k hdr_grpc_message) eqn:K2;
+      [apply bytes_eqb_eq in K2; subst k|
+       destruct (bytes_eqb k hdr_grpc_status_details) eqn:K3;
+       [apply bytes_eqb_eq in K3; subst k|]]]);
+    rewrite ?get_all_remove_same, ?get_all_insert_same; try reflexivity.
   (* 1: no message, no details *)
-  - rewrite get_all_insert_other by (now rewrite bytes_eqb_sym). rewrite E1.
-    destruct (bytes_eqb k hdr_grpc_message) eqn:K2.
-    { apply bytes_eqb_eq in K2. subst k. exact SanM. }
-    destruct (bytes_eqb k hdr_grpc_status_details) eqn:K3; [now apply San|reflexivity].
+  - rewrite get_all_remove_other by exact DS. now rewrite get_all_insert_same.
+  - rewrite get_all_remove_other by exact DM. rewrite get_all_insert_other by exact SM.
+    rewrite E1. exact SanM.
+  - rewrite get_all_remove_other by (now rewrite bytes_eqb_sym).
+    rewrite get_all_insert_other by (now rewrite bytes_eqb_sym). apply E1.
   (* 2: details only *)
   - rewrite get_all_insert_other by exact DS. now rewrite get_all_insert_same.
-  - destruct (bytes_eqb k hdr_grpc_message) eqn:K2.
-    { apply bytes_eqb_eq in K2. subst k.
-      rewrite get_all_insert_other by exact DM. rewrite get_all_insert_other by exact SM.
-      rewrite E1. exact SanM. }
-    destruct (bytes_eqb k hdr_grpc_status_details) eqn:K3.
-    { apply bytes_eqb_eq in K3. subst k. now rewrite get_all_insert_same. }
-    rewrite get_all_insert_other by (now rewrite bytes_eqb_sym).
+  - rewrite get_all_insert_other by exact DM. rewrite get_all_insert_other by exact SM.
+    rewrite E1. exact SanM.
+  - rewrite get_all_insert_other by (now rewrite bytes_eqb_sym).
     rewrite get_all_insert_other by (now rewrite bytes_eqb_sym). apply E1.
   (* 3: message only *)
-  - rewrite get_all_insert_other by exact MS. now rewrite get_all_insert_same.
-  - destruct (bytes_eqb k hdr_grpc_message) eqn:K2.
-    { apply bytes_eqb_eq in K2. subst k. now rewrite get_all_insert_same. }
+  - rewrite get_all_remove_other by exact DS.
+    rewrite get_all_insert_other by exact MS. now rewrite get_all_insert_same.
+  - rewrite get_all_remove_other by exact DM. now rewrite get_all_insert_same.
+  - rewrite get_all_remove_other by (now rewrite bytes_eqb_sym).
     rewrite get_all_insert_other by (now rewrite bytes_eqb_sym).
-    rewrite get_all_insert_other by (now rewrite bytes_eqb_sym). rewrite E1.
-    destruct (bytes_eqb k hdr_grpc_status_details) eqn:K3; [now apply San|reflexivity].
+    rewrite get_all_insert_other by (now rewrite bytes_eqb_sym). apply E1.
   (* 4: both *)
   - rewrite get_all_insert_other by exact DS. rewrite get_all_insert_other by exact MS.
     now rewrite get_all_insert_same.
-  - destruct (bytes_eqb k hdr_grpc_message) eqn:K2.
-    { apply bytes_eqb_eq in K2. subst k. rewrite get_all_insert_other by exact DM.
-      now rewrite get_all_insert_same. }
-    destruct (bytes_eqb k hdr_grpc_status_details) eqn:K3.
-    { apply bytes_eqb_eq in K3. subst k. now rewrite get_all_insert_same. }
-    rewrite get_all_insert_other by (now rewrite bytes_eqb_sym).
+  - rewrite get_all_insert_other by exact DM. now rewrite get_all_insert_same.
+  - rewrite get_all_insert_other by (now rewrite bytes_eqb_sym).
     rewrite get_all_insert_other by (now rewrite bytes_eqb_sym).
     rewrite get_all_insert_other by (now rewrite bytes_eqb_sym). apply E1.
 Qed.
@@ -242,15 +236,23 @@ Proof.
   rewrite get_all_remove_other by (now rewrite bytes_eqb_sym). reflexivity.
 Qed.
 
-Theorem status_roundtrip st :
+(* THE round trip, for EVERY custom metadata (since fix ed827503, F-C04e): code, message and
+   details are recovered exactly, whatever the metadata holds - entries named
+   grpc-status-details-bin included, with empty and with non-empty details.  The metadata is
+   recovered pointwise for every name other than the three status header names; under those
+   three names the reader delivers nothing (from_header_map strips them), so an entry the user
+   filed under grpc-status-details-bin - the only one of the three that survives sanitising - can
+   never be delivered. *)
+Theorem status_roundtrip_full st :
   well_formed st -> utf8_valid (st_msg st) = true ->
-  hm_get_all (st_md st) hdr_grpc_status_details = [] ->
   exists m st',
     to_header_map st = Some m /\ from_header_map m = Some st' /\
     st_code st' = st_code st /\ st_msg st' = st_msg st /\ st_details st' = st_details st /\
-    forall k, hm_get_all (st_md st') k = hm_get_all (sanitize (st_md st)) k.
+    forall k, hm_get_all (st_md st') k =
+              if bytes_eqb k hdr_grpc_status_details then []
+              else hm_get_all (sanitize (st_md st)) k.
 Proof.
-  intros WF Hutf Hnod. pose proof WF as (Hc & Hm & Hd).
+  intros WF Hutf. pose proof WF as (Hc & Hm & Hd).
   destruct (code_roundtrip _ Hc) as [cv (Hcv & Hback & _)].
   destruct (add_header_pointwise st cv WF Hcv) as [m [Hm1 Hpt]].
   exists m.
@@ -262,28 +264,43 @@ Proof.
   { rewrite Hpt. unfold written. now rewrite MS, bytes_eqb_refl. }
   assert (GD : hm_get_all m hdr_grpc_status_details =
                match st_details st with [] => [] | _ => [enc false (st_details st)] end).
-  { rewrite Hpt. unfold written. rewrite DS, DM, bytes_eqb_refl. rewrite Hnod. now destruct (st_details st). }
+  { rewrite Hpt. unfold written. now rewrite DS, DM, bytes_eqb_refl. }
   assert (Dmsg : pct_decode (pct_encode in_encoding_set (st_msg st)) = st_msg st).
   { apply pct_decode_encode; [exact pct_in_set | exact Hm]. }
   assert (Ddet : dec (enc false (st_details st)) = Some (st_details st)).
   { now apply dec_enc. }
   assert (MD' : forall k,
      hm_get_all (hm_remove (hm_remove (hm_remove m hdr_grpc_status) hdr_grpc_message) hdr_grpc_status_details) k
-     = hm_get_all (sanitize (st_md st)) k).
+     = if bytes_eqb k hdr_grpc_status_details then [] else hm_get_all (sanitize (st_md st)) k).
   { intros k. rewrite get_all_remove3, Hpt. unfold written.
     destruct (bytes_eqb k hdr_grpc_status) eqn:K1.
-    { apply bytes_eqb_eq in K1; subst k; cbn [orb]. now rewrite get_all_sanitize, reserved_status. }
+    { apply bytes_eqb_eq in K1; subst k; cbn [orb]. now rewrite SD, get_all_sanitize, reserved_status. }
     destruct (bytes_eqb k hdr_grpc_message) eqn:K2.
-    { apply bytes_eqb_eq in K2; subst k; cbn [orb]. now rewrite get_all_sanitize, reserved_message. }
-    destruct (bytes_eqb k hdr_grpc_status_details) eqn:K3.
-    { apply bytes_eqb_eq in K3; subst k; cbn [orb]. rewrite get_all_sanitize, reserved_details. now rewrite Hnod. }
-    reflexivity. }
+    { apply bytes_eqb_eq in K2; subst k; cbn [orb]. now rewrite MD, get_all_sanitize, reserved_message. }
+    destruct (bytes_eqb k hdr_grpc_status_details) eqn:K3; reflexivity. }
   unfold from_header_map, hm_get. rewrite GS, GM, GD. cbn [hd_error].
   destruct (st_msg st) as [|a l] eqn:E1; destruct (st_details st) as [|a' l'] eqn:E2; cbn [hd_error].
   - eexists. repeat split; try reflexivity; try exact Hm1; try exact Hback. exact MD'.
   - rewrite Ddet. eexists. repeat split; try reflexivity; try exact Hm1; try exact Hback. exact MD'.
   - cbn zeta. rewrite Dmsg, Hutf. eexists. repeat split; try reflexivity; try exact Hm1; try exact Hback. exact MD'.
   - cbn zeta. rewrite Dmsg, Hutf, Ddet. eexists. repeat split; try reflexivity; try exact Hm1; try exact Hback. exact MD'.
+Qed.
+
+(* the form used before the fix: with no entry of that name in the metadata, the whole sanitised
+   metadata comes back *)
+Theorem status_roundtrip st :
+  well_formed st -> utf8_valid (st_msg st) = true ->
+  hm_get_all (st_md st) hdr_grpc_status_details = [] ->
+  exists m st',
+    to_header_map st = Some m /\ from_header_map m = Some st' /\
+    st_code st' = st_code st /\ st_msg st' = st_msg st /\ st_details st' = st_details st /\
+    forall k, hm_get_all (st_md st') k = hm_get_all (sanitize (st_md st)) k.
+Proof.
+  intros WF Hutf Hnod.
+  destruct (status_roundtrip_full st WF Hutf) as (m & st' & H1 & H2 & H3 & H4 & H5 & H6).
+  exists m, st'. repeat split; try assumption. intros k. rewrite H6.
+  destruct (bytes_eqb k hdr_grpc_status_details) eqn:K3; [|reflexivity].
+  apply bytes_eqb_eq in K3. subst k. now rewrite get_all_sanitize, reserved_details, Hnod.
 Qed.
 
 (* ---------- reading arbitrary headers ---------- *)
